@@ -45,7 +45,8 @@ def diverged(net, k, hist, label, tainted=None):
                 what = "key-missing" if (a is None or b is None) else ("status-differs" if a[2] != b[2] else ("value-differs" if a[0] != b[0] else "version-differs"))
                 if what == "version-differs":
                     # a write issued on node i is applied there and applied again when the primary's copy comes back
-                    own = len([1 for (n_, c) in hist if n_ == i and key_of(c) == key and (c.split(" ")[0] in ("set", "remove", "create-user", "set-permissions") or c.startswith(f"set-safe {key} -1 "))])   # set-safe with version -1 IS a plain set
+                    # (on a `newer` database every versioned write is accepted, also when it comes back as the primary's copy: it counts like a plain set)
+                    own = len([1 for (n_, c) in hist if n_ == i and key_of(c) == key and (c.split(" ")[0] in ("set", "remove", "create-user", "set-permissions") or c.startswith(f"set-safe {key} -1 ") or (c.startswith("set-safe ") and pattrs.get(db) == "newer"))])   # set-safe with version -1 IS a plain set
                     # … and a write carrying the in-conflict marker -2 is applied twice too: the first time the key gets vinc(-2) = -1 (absent key)
                     # or keeps -2, the echo then pins it at -2 — the origin ends BELOW or above the primary, same cause
                     marked = any(n_ == i and c.startswith(f"set-safe {key} -2 ") for (n_, c) in hist)
@@ -155,6 +156,46 @@ def scenario_versions(k, script, label="version-marker", strategy=None):
         return found
     return fn
 
+def scenario_snapshot_names(k, script, label="snapshot-names"):
+    """a `snapshot` command names the databases to write (or none: the selected one); what the primary queues for its own snapshot round and what
+    it tells the secondaries to queue must be the same databases with the same mode — compared through every node's snapshot queue"""
+    def fn(net, rng):
+        if not setup(net, k, rng): return [Failure("cluster-does-not-form", f"{k} nodes")]
+        net.cmd(1, 1, "create-db u tku"); net.cmd(1, 1, "create-db w tkw")
+        if net.quiesce(rng, 300) is None: return [Failure("no-quiescence", "create-db")]
+        hist = []
+        for node, cmd in script:
+            hist.append((node, cmd)); net.cmd(node, 1, cmd)
+            if net.quiesce(rng, 300) is None: return [Failure("no-quiescence", f"after {cmd}")]
+            for i in range(1, k + 1): net.op(i, "DUMP")
+            dumps = netrunner.dumps_of(net)
+            q = {i: sorted(next((l for l in dumps[i] if l.startswith("D snapq")), "D snapq ")[8:].split(",")) for i in range(1, k + 1)}
+            # (a snapshot command issued on a SECONDARY is that node's own business: it is not forwarded, and need not be)
+            for i in (range(2, k + 1) if node == 1 else []):
+                if q[i] != q[1]:
+                    return [Failure(f"snapshot-queue-differs:{cmd.split(' ')[0]}@{'primary' if node == 1 else 'secondary'}", f"after {cmd!r} on n{node}: the primary queued {q[1]}, n{i} queued {q[i]}; history {hist}")]
+            if cmd.startswith("snapshot"):
+                for i in range(1, k + 1): net.op(i, "SNAP")
+            if label != "snapshot-names":
+                fs = diverged(net, k, hist, f"{cmd.split(' ')[0]}-{label}@{'primary' if node == 1 else 'secondary'}")
+                if [f for f in fs if f.cls != "version-differs:echo-of-own-write"]: return fs
+        return diverged(net, k, hist, label)
+    return fn
+
+# commands that NAME a database other than the one the session has selected (the administrator's resolve, snapshots, the cluster forms):
+# the primary and the secondaries must apply them to the same database
+CROSS_DB_SCRIPTS = [
+    [(1, "resolve 7 u r 1 res"), (1, "use-db u tku"), (1, "get r"), (1, "resolve 8 t q 1 res2"), (1, "set z 1")],
+    [(1, "use-db u tku"), (1, "set r 0"), (1, "set r 1"), (1, "use-db w tkw"), (1, "resolve 9 u r 2 merged"), (1, "replicate t x -1 direct"), (1, "replicate-remove u r"), (1, "replicate-increment w n 3")],
+]
+
+SNAPSHOT_SCRIPTS = [
+    [(1, "set a 1"), (1, "snapshot false u"), (1, "use-db u tku"), (1, "set a 2"), (1, "snapshot false t"), (1, "remove a"), (1, "set a 3")],
+    [(1, "set a 1"), (1, "snapshot false t|u"), (1, "snapshot true w"), (1, "snapshot false"), (1, "remove a"), (1, "set a 4")],
+    [(1, "use-db u tku"), (1, "set k 1"), (1, "use-db t tok"), (1, "snapshot false u"), (1, "use-db u tku"), (1, "remove k"), (1, "set k 2"), (1, "snapshot true")],
+    [(2, "set a 1"), (2, "snapshot false u"), (2, "snapshot false t"), (2, "snapshot true u|w")],
+]
+
 VERSION_SCRIPTS = [
     [(1, "set a 1"), (1, "set-safe a -2 marked"), (1, "set a 3"), (1, "set-safe a 7 seven"), (1, "set-safe a 2 stale")],
     [(1, "set-safe a -2 first"), (1, "set-safe a -2 again"), (1, "remove a"), (1, "set a back")],
@@ -203,6 +244,8 @@ def scenarios(tier):
         for vi, sc in enumerate(VERSION_SCRIPTS + NEWER_SCRIPTS): S.append((f"k{k}-newer-version-markers-{vi}", scenario_versions(k, sc, "newer-strategy", "newer")))
         for r in range(3 if tier == "quick" else 20): S.append((f"k{k}-newer-primary-only-{r}", scenario(k, 4 + r % 5, False, single_node=1, strategy="newer")))
         for vi, sc in enumerate(WIRE_SCRIPTS): S.append((f"k{k}-wire-format-{vi}", scenario_versions(k, sc, "wire-format")))
+        for vi, sc in enumerate(SNAPSHOT_SCRIPTS): S.append((f"k{k}-snapshot-names-{vi}", scenario_snapshot_names(k, sc)))
+        for vi, sc in enumerate(CROSS_DB_SCRIPTS): S.append((f"k{k}-cross-database-{vi}", scenario_snapshot_names(k, sc, "cross-database")))
     # two concurrent clients on the primary (the quantifier's second case), lock-level schedules
     import random
     r = random.Random(17)
